@@ -15,6 +15,7 @@
 
 #include <pugixml.hpp>
 
+#include <algorithm>
 #include <string>
 #include <string_view>
 #include <optional>
@@ -30,11 +31,8 @@ class schema_parser
 public:
     schema_parser(
         const std::string& path, ireporter& reporter, ifs_provider& fs_provider)
-        : reporter{&reporter}, fs_provider{&fs_provider}
+        : schema_parser{path, reporter, fs_provider, {}}
     {
-        const auto file_data = this->fs_provider->read_file(path);
-        locations = location_manager{path, file_data};
-        parse_xml(file_data);
     }
 
     void parse_schema()
@@ -58,11 +56,28 @@ public:
 private:
     ireporter* reporter;
     ifs_provider* fs_provider;
+    // files being parsed at the moment, from the top-level one down to this
+    std::vector<std::string> include_chain;
     location_manager locations;
     pugi::xml_document xml_doc;
     sbe::message_schema message_schema;
     unique_set<std::string> unique_message_names;
     unique_set<message_id_t> unique_message_ids;
+
+    schema_parser(
+        const std::string& path,
+        ireporter& reporter,
+        ifs_provider& fs_provider,
+        std::vector<std::string> parent_chain)
+        : reporter{&reporter},
+          fs_provider{&fs_provider},
+          include_chain{std::move(parent_chain)}
+    {
+        include_chain.push_back(path);
+        const auto file_data = this->fs_provider->read_file(path);
+        locations = location_manager{path, file_data};
+        parse_xml(file_data);
+    }
 
     enum class ordered_member_type
     {
@@ -135,7 +150,17 @@ private:
     void parse_include(const pugi::xml_node root)
     {
         const auto path = get_required_non_empty_string(root, "href");
-        auto parser = schema_parser{path, *reporter, *fs_provider};
+        if(std::find(
+               std::begin(include_chain), std::end(include_chain), path)
+           != std::end(include_chain))
+        {
+            throw_error(
+                "{}: cyclic include of `{}`",
+                locations.find(root.offset_debug()),
+                path);
+        }
+        auto parser =
+            schema_parser{path, *reporter, *fs_provider, include_chain};
         parser.parse_schema_content();
 
         const auto& schema = parser.get_message_schema();
